@@ -69,7 +69,7 @@ prop('C01', title='Responses reach exactly the call that asked',
      level_note='Channel::call is under contract too: the sender it enqueues under the allocated id is the sender of the very receiver it then awaits (A-pair reduced to the model of oneshot::channel()). tokio\'s oneshot delivery is assumed (A-oneshot).',
      not_covered='that tokio delivers the value sent on a oneshot to the paired receiver')
 prop('C02', SERVER_TOO, title='Every call terminates; no wakeup is lost',
-     verus=['client'], technique=TECH_V + ' (safety proxy: Pending => wake source armed)',
+     verus=['client'], native=['client_wakeups_bounded', 'server_wakeups_bounded'], technique=TECH_V + ' (safety proxy: Pending => wake source armed); plus bounded wake-driven replay searches (tasks polled only when woken, compared with eager polling) as a source of concrete lost-wakeup scenarios (never counted as proved)',
      assumptions=COMMON_V + ['A-oneshot', 'A-mpsc', 'A-delayqueue', 'A-sink'],
      level_text='Only the safety proxy is proved: every poll function of the client dispatch that returns Pending has, at that return, registered the waker with its own event source or is blocked behind a transport registration (flush/ready) or the in-flight capacity, and the run loop returns Pending only with the read side registered and timers registered when anything is in flight. Liveness proper (fair executor, wake => re-poll) is argued on paper and listed as unchecked.',
      level_note='Liveness is not decidable by this technique; dependency models are assumed to register the waker whenever they answer Pending.',
